@@ -1,339 +1,142 @@
 import PttVerif.Proofs.C18Misc
 /-
-C18 (group 3, continued) — helper lemmas for cmbbs.SubjectEx:
-what `bytes.ToLower` (as modelled) can produce per rune, what a prefix match implies about the source bytes,
-totality / termination / suffix, and the DBCS-boundary invariant.
+C18 (group 3, continued) — helper lemmas for cmsys.StrcaseStartsWith (after fix ff0e11f: strncasecmp over the
+bytes) and cmbbs.SubjectEx: the matcher equals `CstrCaseHasPrefix`; what a match says about the title's first
+bytes; totality / termination / suffix; the DBCS-boundary invariant (at full strength).
 -/
 namespace PttVerif.C18
 open PttVerif
 
-/-! ### utf8Width / lowerRune -/
+/-! ### StrcaseStartsWith -/
 
-theorem utf8Width_bounds (s : List Nat) (w : Nat) (h : utf8Width s = some w) :
-    1 ≤ w ∧ w ≤ s.length ∧ (w = 1 → ∃ b r, s = b :: r ∧ b < 128) ∧
-      (2 ≤ w → ∃ b r, s = b :: r ∧ 0xC2 ≤ b ∧ (b = 0xEF → w = 3)) := by
-  unfold utf8Width at h
-  match s, h with
-  | [], h => simp at h
-  | b0 :: r, h =>
-    simp only at h
-    by_cases h1 : b0 < 0x80
-    · simp only [h1, if_true, Option.some.injEq] at h
-      subst h
-      exact ⟨by omega, by simp, fun _ => ⟨b0, r, rfl, h1⟩, by omega⟩
-    · simp only [h1, if_false] at h
-      by_cases h2 : 0xC2 ≤ b0 ∧ b0 ≤ 0xDF
-      · simp only [h2, and_self, if_true] at h
-        match r, h with
-        | [], h => simp at h
-        | b1 :: r', h =>
-          simp only at h
-          by_cases hc : isCont b1 = true
-          · simp only [hc, if_true, Option.some.injEq] at h
-            subst h
-            exact ⟨by omega, by simp, by omega, fun _ => ⟨b0, _, rfl, h2.1, by omega⟩⟩
-          · simp [hc] at h
-      · simp only [h2, if_false] at h
-        by_cases h3 : 0xE0 ≤ b0 ∧ b0 ≤ 0xEF
-        · simp only [h3, and_self, if_true] at h
-          match r, h with
-          | [], h => simp at h
-          | [_], h => simp at h
-          | b1 :: b2 :: r', h =>
-            simp only at h
-            by_cases hc : (second3 b0 b1 && isCont b2) = true
-            · simp only [hc, if_true, Option.some.injEq] at h
-              subst h
-              exact ⟨by omega, by simp, by omega, fun _ => ⟨b0, _, rfl, by omega, fun _ => rfl⟩⟩
-            · simp [hc] at h
-        · simp only [h3, if_false] at h
-          by_cases h4 : 0xF0 ≤ b0 ∧ b0 ≤ 0xF4
-          · simp only [h4, and_self, if_true] at h
-            match r, h with
-            | [], h => simp at h
-            | [_], h => simp at h
-            | [_, _], h => simp at h
-            | b1 :: b2 :: b3 :: r', h =>
-              simp only at h
-              by_cases hc : (second4 b0 b1 && isCont b2 && isCont b3) = true
-              · simp only [hc, if_true, Option.some.injEq] at h
-                subst h
-                exact ⟨by omega, by simp, by omega, fun _ => ⟨b0, _, rfl, by omega, by omega⟩⟩
-              · simp [hc] at h
-          · simp [h4] at h
+theorem startsWithLoop_spec (done s pre : List Nat) (h : pre.length ≤ s.length) :
+    startsWithLoop (done ++ s) pre done.length = .ok (hasPrefix (s.map ccharTolower) (pre.map ccharTolower)) := by
+  induction pre generalizing done s with
+  | nil => simp [startsWithLoop, hasPrefix, pure, Except.pure]
+  | cons e rest ih =>
+    match s, h with
+    | c :: s', h =>
+      have hi : idx (done ++ c :: s') done.length = .ok c := idx_append_len done c s'
+      simp only [startsWithLoop, hi, bind, Except.bind, List.map_cons, hasPrefix]
+      by_cases hne : ccharTolower c = ccharTolower e
+      · have := ih (done ++ [c]) s' (by simp at h; omega)
+        simp only [List.append_assoc, List.singleton_append, List.length_append, List.length_cons,
+          List.length_nil] at this
+        simp only [hne, ne_eq, not_true, if_false, beq_self_eq_true, Bool.true_and]
+        exact this
+      · have : (ccharTolower c == ccharTolower e) = false := by simpa using hne
+        simp [hne, this, pure, Except.pure]
 
-theorem utf8Width_ascii (b : Nat) (r : List Nat) (h : b < 128) : utf8Width (b :: r) = some 1 := by
-  simp [utf8Width, h]
+/-- the matcher never faults and is exactly "the ASCII-folded prefix is a prefix of the ASCII-folded string". -/
+theorem strcaseStartsWith_eq (str pre : List Nat) :
+    strcaseStartsWith str pre = .ok (hasPrefix (str.map ccharTolower) (pre.map ccharTolower)) := by
+  unfold strcaseStartsWith
+  by_cases h : str.length < pre.length
+  · rw [if_pos h]
+    have : hasPrefix (str.map ccharTolower) (pre.map ccharTolower) = false := by
+      cases hp : hasPrefix (str.map ccharTolower) (pre.map ccharTolower) with
+      | false => rfl
+      | true =>
+        have := ((hasPrefix_iff _ _).mp hp).length_le
+        simp at this; omega
+    rw [this]; rfl
+  · rw [if_neg h]
+    simpa using startsWithLoop_spec [] str pre (by omega)
 
-/-- what one rune of `bytes.ToLower` looks like. -/
-inductive RuneCase (s : List Nat) : List Nat × Nat → Prop where
-  | ascii (b : Nat) (r : List Nat) : s = b :: r → b < 128 → RuneCase s ([ccharTolower b], 1)
-  | invalid (b : Nat) (r : List Nat) : s = b :: r → 128 ≤ b → RuneCase s ([0xEF, 0xBF, 0xBD], 1)
-  | idot : s.take 2 = [0xC4, 0xB0] → 2 ≤ s.length → RuneCase s ([105], 2)
-  | kelvin : s.take 3 = [0xE2, 0x84, 0xAA] → 3 ≤ s.length → RuneCase s ([107], 3)
-  | copy (w : Nat) (b : Nat) (r : List Nat) : s = b :: r → 2 ≤ w → w ≤ s.length → 0xC2 ≤ b → (b = 0xEF → w = 3) →
-      RuneCase s (s.take w, w)
+/-- the pure reading of the `if / else if` chain. -/
+def subjectStepP (p : List Nat) : Option (Nat × Nat) :=
+  if hasPrefix (p.map ccharTolower) (STR_REPLY.map ccharTolower) then some (STR_REPLY.length, SUBJECT_REPLY)
+  else if hasPrefix (p.map ccharTolower) (STR_FORWARD.map ccharTolower) then some (STR_FORWARD.length, SUBJECT_FORWARD)
+  else if hasPrefix (p.map ccharTolower) (STR_LEGACY_FORWARD.map ccharTolower) then
+    some (STR_LEGACY_FORWARD.length, SUBJECT_FORWARD)
+  else none
 
-theorem lowerRune_cases (b0 : Nat) (r : List Nat) : RuneCase (b0 :: r) (lowerRune (b0 :: r)) := by
-  unfold lowerRune
-  simp only
-  cases hw : utf8Width (b0 :: r) with
-  | none =>
-    simp only
-    by_cases hb : b0 < 128
-    · rw [utf8Width_ascii b0 r hb] at hw; simp at hw
-    · exact .invalid b0 r rfl (by omega)
-  | some w =>
-    obtain ⟨h1, h2, h3, h4⟩ := utf8Width_bounds _ w hw
-    simp only
-    by_cases hw1 : w = 1
-    · subst hw1
-      obtain ⟨b, r', e, hb⟩ := h3 rfl
-      simp only [List.cons.injEq] at e
-      obtain ⟨rfl, rfl⟩ := e
-      simp only [if_true]
-      exact .ascii b0 r rfl hb
-    · simp only [hw1, if_false]
-      obtain ⟨b, r', e, hb, hef⟩ := h4 (by omega)
-      simp only [List.cons.injEq] at e
-      obtain ⟨rfl, rfl⟩ := e
-      simp only [List.length_cons] at h2
-      by_cases hi : (b0 :: r).take w = [0xC4, 0xB0]
-      · have hw2 : w = 2 := by
-          have := congrArg List.length hi
-          simp [List.length_take] at this; omega
-        subst hw2
-        simp only [hi, if_true]
-        exact .idot hi h2
-      · simp only [hi, if_false]
-        by_cases hk : (b0 :: r).take w = [0xE2, 0x84, 0xAA]
-        · have hw3 : w = 3 := by
-            have := congrArg List.length hk
-            simp [List.length_take] at this; omega
-          subst hw3
-          simp only [hk, if_true]
-          exact .kelvin hk h2
-        · simp only [hk, if_false]
-          exact .copy w b0 r rfl (by omega) h2 hb hef
+theorem subjectStep_eq (p : List Nat) : subjectStep p = .ok (subjectStepP p) := by
+  unfold subjectStep subjectStepP
+  simp only [strcaseStartsWith_eq, bind, Except.bind]
+  split <;> (try split) <;> (try split) <;> rfl
 
-theorem lowerRune_w (b0 : Nat) (r : List Nat) : 1 ≤ (lowerRune (b0 :: r)).2 ∧ (lowerRune (b0 :: r)).2 ≤ (b0 :: r).length := by
-  have h := lowerRune_cases b0 r
-  generalize lowerRune (b0 :: r) = x at h
-  cases h with
-  | ascii => simp
-  | invalid => simp
-  | idot _ h2 => exact ⟨by omega, h2⟩
-  | kelvin _ h2 => exact ⟨by omega, h2⟩
-  | copy w _ _ _ h2 h3 => exact ⟨by omega, h3⟩
+/-! ### what a match says about the title's first bytes -/
 
-/-! ### goToLower unfolds rune by rune -/
-
-theorem lowerChunks_fuel (n : Nat) : ∀ (s : List Nat) (fuel : Nat), s.length ≤ n → fuel ≥ s.length →
-    lowerChunks fuel s = lowerChunks s.length s := by
-  induction n with
-  | zero =>
-    intro s fuel hs _
-    have : s = [] := List.length_eq_zero_iff.mp (by omega)
-    subst this
-    cases fuel <;> simp [lowerChunks]
-  | succ n ih =>
-    intro s fuel hs hf
-    match s with
-    | [] => cases fuel <;> simp [lowerChunks]
-    | b0 :: r =>
-      obtain ⟨hw1, hw2⟩ := lowerRune_w b0 r
-      cases fuel with
-      | zero => simp at hf
-      | succ f =>
-        have hl : ((b0 :: r).drop (lowerRune (b0 :: r)).2).length ≤ r.length := by
-          simp only [List.length_drop, List.length_cons]; omega
-        simp only [List.length_cons, lowerChunks]
-        rw [ih _ f (by simp at hs; omega) (by simp at hf; omega), ih _ r.length (by simp at hs; omega) hl]
-
-theorem goToLower_nil : goToLower [] = [] := rfl
-
-theorem goToLower_cons (b0 : Nat) (r : List Nat) :
-    goToLower (b0 :: r) = (lowerRune (b0 :: r)).1 ++ goToLower ((b0 :: r).drop (lowerRune (b0 :: r)).2) := by
-  obtain ⟨hw1, hw2⟩ := lowerRune_w b0 r
-  have hl : ((b0 :: r).drop (lowerRune (b0 :: r)).2).length ≤ r.length := by
-    simp only [List.length_drop, List.length_cons]; omega
-  unfold goToLower
-  simp only [List.length_cons, lowerChunks, List.flatten_cons]
-  rw [lowerChunks_fuel r.length _ r.length hl hl]
-
-/-! ### what a prefix match says about the source bytes -/
-
-theorem hasPrefix_append_single (x : Nat) (X : List Nat) (a : Nat) (t : List Nat) :
-    hasPrefix ([x] ++ X) (a :: t) = (x == a && hasPrefix X t) := by
-  simp [hasPrefix]
-
-/-- target byte `a` is ASCII and neither `i` nor `k`: the source starts with one ASCII byte folding to `a`. -/
-theorem match_ascii (s : List Nat) (a : Nat) (t : List Nat) (ha : a < 128) (hi : a ≠ 105) (hk : a ≠ 107)
-    (h : hasPrefix (goToLower s) (a :: t) = true) :
-    ∃ b r, s = b :: r ∧ b < 128 ∧ ccharTolower b = a ∧ hasPrefix (goToLower r) t = true := by
-  match s with
-  | [] => simp [goToLower_nil, hasPrefix] at h
-  | b0 :: r =>
-    rw [goToLower_cons] at h
-    have hc := lowerRune_cases b0 r
-    generalize lowerRune (b0 :: r) = x at h hc
-    cases hc with
-    | ascii b r' e hb =>
-      simp only [List.cons.injEq] at e
-      obtain ⟨rfl, rfl⟩ := e
-      simp only [List.drop_succ_cons, List.drop_zero, hasPrefix_append_single, Bool.and_eq_true, beq_iff_eq] at h
-      exact ⟨b0, r, rfl, hb, h.1, h.2⟩
-    | invalid b r' e hb =>
-      simp [hasPrefix] at h; omega
-    | idot =>
-      simp [hasPrefix] at h; omega
-    | kelvin =>
-      simp [hasPrefix] at h; omega
-    | copy w b r' e h2 h3 hb hef =>
-      simp only [List.cons.injEq] at e
-      obtain ⟨rfl, rfl⟩ := e
-      have : (b0 :: r).take w = b0 :: r.take (w - 1) := by
-        cases w with
-        | zero => omega
-        | succ w => simp
-      simp only [this, List.cons_append, hasPrefix, Bool.and_eq_true, beq_iff_eq] at h
-      omega
-
-/-- target `EF BF BD` (U+FFFD): the source starts with one rune that `bytes.ToLower` turns into U+FFFD —
-a byte ≥ 0x80 that starts no valid encoding, or the literal three bytes EF BF BD. -/
-theorem match_fffd (s : List Nat) (t : List Nat)
-    (h : hasPrefix (goToLower s) (0xEF :: 0xBF :: 0xBD :: t) = true) :
-    (∃ b r, s = b :: r ∧ 128 ≤ b ∧ hasPrefix (goToLower r) t = true) ∨
-    (∃ r, s = 0xEF :: 0xBF :: 0xBD :: r ∧ hasPrefix (goToLower r) t = true) := by
-  match s with
-  | [] => simp [goToLower_nil, hasPrefix] at h
-  | b0 :: r =>
-    rw [goToLower_cons] at h
-    have hc := lowerRune_cases b0 r
-    generalize lowerRune (b0 :: r) = x at h hc
-    cases hc with
-    | ascii b r' e hb =>
-      simp only [List.cons.injEq] at e
-      obtain ⟨rfl, rfl⟩ := e
-      simp only [hasPrefix_append_single, Bool.and_eq_true, beq_iff_eq] at h
-      have : ccharTolower b0 < 128 := by unfold ccharTolower; split <;> omega
-      omega
-    | invalid b r' e hb =>
-      simp only [List.cons.injEq] at e
-      obtain ⟨rfl, rfl⟩ := e
-      simp only [List.drop_succ_cons, List.drop_zero, List.cons_append, List.nil_append, hasPrefix, beq_self_eq_true,
-        Bool.true_and] at h
-      exact .inl ⟨b0, r, rfl, hb, h⟩
-    | idot => simp [hasPrefix] at h
-    | kelvin => simp [hasPrefix] at h
-    | copy w b r' e h2 h3 hb hef =>
-      simp only [List.cons.injEq] at e
-      obtain ⟨rfl, rfl⟩ := e
-      have htake : (b0 :: r).take w = b0 :: r.take (w - 1) := by
-        cases w with
-        | zero => omega
-        | succ w => simp
-      have hb0 : b0 = 0xEF := by
-        simp only [htake, List.cons_append, hasPrefix, Bool.and_eq_true, beq_iff_eq] at h
-        exact h.1
-      have hw3 : w = 3 := hef hb0
-      subst hw3
-      match r, h3, h with
-      | b1 :: b2 :: r2, _, h =>
-        simp only [List.take_succ_cons, List.take_zero, List.cons_append, List.nil_append, hasPrefix, Bool.and_eq_true,
-          beq_iff_eq, List.drop_succ_cons, List.drop_zero] at h
-        obtain ⟨_, h1, h2', h3'⟩ := h
-        subst hb0; subst h1; subst h2'
-        exact .inr ⟨r2, rfl, h3'⟩
-      | [_], h3, _ => simp at h3
-      | [], h3, _ => simp at h3
-
-theorem lower_reply : goToLower STR_REPLY = [114, 101, 58] := by decide +kernel
-theorem lower_forward : goToLower STR_FORWARD = [102, 119, 58] := by decide +kernel
-theorem lower_legacy : goToLower STR_LEGACY_FORWARD =
-    [91, 0xEF, 0xBF, 0xBD, 0xEF, 0xBF, 0xBD, 0xEF, 0xBF, 0xBD, 0xEF, 0xBF, 0xBD, 93] := by decide +kernel
+theorem lower_reply : STR_REPLY.map ccharTolower = [114, 101, 58] := by decide +kernel
+theorem lower_forward : STR_FORWARD.map ccharTolower = [102, 119, 58] := by decide +kernel
+theorem lower_legacy : STR_LEGACY_FORWARD.map ccharTolower = [91, 0xC2, 0xE0, 0xBF, 0xFD, 93] := by decide +kernel
 theorem subject_lens : STR_REPLY.length = 3 ∧ STR_FORWARD.length = 3 ∧ STR_LEGACY_FORWARD.length = 6 := by
   decide +kernel
 
-/-- a three-letter ASCII prefix (`Re:` / `Fw:`) matched: the title starts with three ASCII bytes. -/
-theorem match_ascii3 (p : List Nat) (a b c : Nat) (ha : a < 128 ∧ a ≠ 105 ∧ a ≠ 107)
-    (hb : b < 128 ∧ b ≠ 105 ∧ b ≠ 107) (hc : c < 128 ∧ c ≠ 105 ∧ c ≠ 107)
-    (h : hasPrefix (goToLower p) [a, b, c] = true) :
-    ∃ x y z r, p = x :: y :: z :: r ∧ x < 128 ∧ y < 128 ∧ z < 128 := by
-  obtain ⟨x, r1, rfl, hx, _, h1⟩ := match_ascii p a _ ha.1 ha.2.1 ha.2.2 h
-  obtain ⟨y, r2, rfl, hy, _, h2⟩ := match_ascii r1 b _ hb.1 hb.2.1 hb.2.2 h1
-  obtain ⟨z, r3, rfl, hz, _, _⟩ := match_ascii r2 c _ hc.1 hc.2.1 hc.2.2 h2
-  exact ⟨x, y, z, r3, rfl, hx, hy, hz⟩
+theorem lower_ascii_src (b t : Nat) (h : ccharTolower b = t) (ht : t < 128) : b < 128 := by
+  unfold ccharTolower at h; split at h <;> omega
 
-/-- one U+FFFD of the target consumed: at least one source byte; exactly one byte ≥ 0x80 when no EF occurs. -/
-theorem match_fffd' (s t : List Nat) (h : hasPrefix (goToLower s) (0xEF :: 0xBF :: 0xBD :: t) = true) :
-    ∃ w r, 1 ≤ w ∧ s.length = w + r.length ∧ r = s.drop w ∧ hasPrefix (goToLower r) t = true ∧
-      (0xEF ∉ s → ∃ b, s = b :: r ∧ 128 ≤ b) := by
-  rcases match_fffd s t h with ⟨b, r, rfl, hb, h'⟩ | ⟨r, rfl, h'⟩
-  · exact ⟨1, r, by omega, by simp; omega, by simp, h', fun _ => ⟨b, rfl, hb⟩⟩
-  · exact ⟨3, r, by omega, by simp; omega, by simp, h', fun hne => absurd (by simp) hne⟩
+theorem lower_high_src (b t : Nat) (h : ccharTolower b = t) (ht : 128 ≤ t) : b = t := by
+  unfold ccharTolower at h; split at h <;> omega
 
-theorem match_legacy (p : List Nat) (h : strcaseStartsWith p STR_LEGACY_FORWARD = true) :
-    6 ≤ p.length ∧ (0xEF ∉ p → ∃ h1 h2 h3 h4 r, p = 91 :: h1 :: h2 :: h3 :: h4 :: 93 :: r ∧
-      128 ≤ h1 ∧ 128 ≤ h2 ∧ 128 ≤ h3 ∧ 128 ≤ h4) := by
-  unfold strcaseStartsWith at h
-  rw [lower_legacy] at h
-  obtain ⟨x, r0, rfl, hx, hlx, h0⟩ := match_ascii p 91 _ (by omega) (by omega) (by omega) h
-  have hx91 : x = 91 := by
-    unfold ccharTolower at hlx; split at hlx <;> omega
-  subst hx91
-  obtain ⟨w1, r1, hw1, hl1, hd1, h1, e1⟩ := match_fffd' r0 _ h0
-  obtain ⟨w2, r2, hw2, hl2, hd2, h2, e2⟩ := match_fffd' r1 _ h1
-  obtain ⟨w3, r3, hw3, hl3, hd3, h3, e3⟩ := match_fffd' r2 _ h2
-  obtain ⟨w4, r4, hw4, hl4, hd4, h4, e4⟩ := match_fffd' r3 _ h3
-  obtain ⟨y, r5, hr5, hy, hly, _⟩ := match_ascii r4 93 _ (by omega) (by omega) (by omega) h4
-  have hy93 : y = 93 := by
-    unfold ccharTolower at hly; split at hly <;> omega
-  subst hy93
-  refine ⟨by simp [hr5] at hl4; simp; omega, ?_⟩
-  intro hne
-  have n0 : 0xEF ∉ r0 := fun hm => hne (by simp [hm])
-  obtain ⟨b1, eb1, hb1⟩ := e1 n0
-  have n1 : 0xEF ∉ r1 := fun hm => n0 (by rw [eb1]; simp [hm])
-  obtain ⟨b2, eb2, hb2⟩ := e2 n1
-  have n2 : 0xEF ∉ r2 := fun hm => n1 (by rw [eb2]; simp [hm])
-  obtain ⟨b3, eb3, hb3⟩ := e3 n2
-  have n3 : 0xEF ∉ r3 := fun hm => n2 (by rw [eb3]; simp [hm])
-  obtain ⟨b4, eb4, hb4⟩ := e4 n3
-  exact ⟨b1, b2, b3, b4, r5, by rw [eb1, eb2, eb3, eb4, hr5], hb1, hb2, hb3, hb4⟩
+theorem match3 (p : List Nat) (a b c : Nat) (h : hasPrefix (p.map ccharTolower) [a, b, c] = true) :
+    ∃ x y z r, p = x :: y :: z :: r ∧ ccharTolower x = a ∧ ccharTolower y = b ∧ ccharTolower z = c := by
+  match p, h with
+  | x :: y :: z :: r, h =>
+    simp only [List.map_cons, hasPrefix, Bool.and_eq_true, beq_iff_eq] at h
+    exact ⟨x, y, z, r, rfl, h.1, h.2.1, h.2.2.1⟩
+  | [_, _], h => simp [hasPrefix] at h
+  | [_], h => simp [hasPrefix] at h
+  | [], h => simp [hasPrefix] at h
 
-/-- the step function: what matched, how long it is, and what that says about the title's first bytes. -/
-theorem subjectStep_spec (p : List Nat) (n ty : Nat) (h : subjectStep p = some (n, ty)) :
+theorem match6 (p : List Nat) (a b c d e f : Nat)
+    (h : hasPrefix (p.map ccharTolower) [a, b, c, d, e, f] = true) :
+    ∃ x1 x2 x3 x4 x5 x6 r, p = x1 :: x2 :: x3 :: x4 :: x5 :: x6 :: r ∧ ccharTolower x1 = a ∧ ccharTolower x2 = b ∧
+      ccharTolower x3 = c ∧ ccharTolower x4 = d ∧ ccharTolower x5 = e ∧ ccharTolower x6 = f := by
+  obtain ⟨x1, x2, x3, r, rfl, h1, h2, h3⟩ : ∃ x y z r, p = x :: y :: z :: r ∧ ccharTolower x = a ∧
+      ccharTolower y = b ∧ ccharTolower z = c := by
+    match p, h with
+    | x :: y :: z :: r, h =>
+      simp only [List.map_cons, hasPrefix, Bool.and_eq_true, beq_iff_eq] at h
+      exact ⟨x, y, z, r, rfl, h.1, h.2.1, h.2.2.1⟩
+    | [_, _], h => simp [hasPrefix] at h
+    | [_], h => simp [hasPrefix] at h
+    | [], h => simp [hasPrefix] at h
+  have h' : hasPrefix (r.map ccharTolower) [d, e, f] = true := by
+    simp only [List.map_cons, hasPrefix, Bool.and_eq_true, beq_iff_eq] at h
+    exact h.2.2.2
+  obtain ⟨x4, x5, x6, r', rfl, h4, h5, h6⟩ := match3 r d e f h'
+  exact ⟨x1, x2, x3, x4, x5, x6, r', rfl, h1, h2, h3, h4, h5, h6⟩
+
+/-- the step function: what matched, how long it is, and what that says about the title's first bytes —
+three ASCII bytes, or exactly the six bytes of the legacy forward tag. -/
+theorem subjectStepP_spec (p : List Nat) (n ty : Nat) (h : subjectStepP p = some (n, ty)) :
     n ≤ p.length ∧ 3 ≤ n ∧
     ((∃ x y z r, n = 3 ∧ p = x :: y :: z :: r ∧ x < 128 ∧ y < 128 ∧ z < 128) ∨
-     (n = 6 ∧ (0xEF ∉ p → ∃ h1 h2 h3 h4 r, p = 91 :: h1 :: h2 :: h3 :: h4 :: 93 :: r ∧
-        128 ≤ h1 ∧ 128 ≤ h2 ∧ 128 ≤ h3 ∧ 128 ≤ h4))) := by
+     (∃ r, n = 6 ∧ p = 91 :: 0xC2 :: 0xE0 :: 0xBF :: 0xFD :: 93 :: r)) := by
   obtain ⟨l1, l2, l3⟩ := subject_lens
-  unfold subjectStep at h
-  by_cases c1 : strcaseStartsWith p STR_REPLY = true
+  unfold subjectStepP at h
+  rw [lower_reply, lower_forward, lower_legacy] at h
+  by_cases c1 : hasPrefix (p.map ccharTolower) [114, 101, 58] = true
   · simp only [c1, if_true, Option.some.injEq, Prod.mk.injEq] at h
-    unfold strcaseStartsWith at c1
-    rw [lower_reply] at c1
-    obtain ⟨x, y, z, r, rfl, hx, hy, hz⟩ := match_ascii3 p 114 101 58 (by omega) (by omega) (by omega) c1
+    obtain ⟨x, y, z, r, rfl, hx, hy, hz⟩ := match3 p _ _ _ c1
     rw [l1] at h
-    exact ⟨by simp; omega, by omega, .inl ⟨x, y, z, r, by omega, rfl, hx, hy, hz⟩⟩
+    exact ⟨by simp; omega, by omega, .inl ⟨x, y, z, r, by omega, rfl,
+      lower_ascii_src x _ hx (by omega), lower_ascii_src y _ hy (by omega), lower_ascii_src z _ hz (by omega)⟩⟩
   · simp only [c1, Bool.false_eq_true, if_false] at h
-    by_cases c2 : strcaseStartsWith p STR_FORWARD = true
+    by_cases c2 : hasPrefix (p.map ccharTolower) [102, 119, 58] = true
     · simp only [c2, if_true, Option.some.injEq, Prod.mk.injEq] at h
-      unfold strcaseStartsWith at c2
-      rw [lower_forward] at c2
-      obtain ⟨x, y, z, r, rfl, hx, hy, hz⟩ := match_ascii3 p 102 119 58 (by omega) (by omega) (by omega) c2
+      obtain ⟨x, y, z, r, rfl, hx, hy, hz⟩ := match3 p _ _ _ c2
       rw [l2] at h
-      exact ⟨by simp; omega, by omega, .inl ⟨x, y, z, r, by omega, rfl, hx, hy, hz⟩⟩
+      exact ⟨by simp; omega, by omega, .inl ⟨x, y, z, r, by omega, rfl,
+        lower_ascii_src x _ hx (by omega), lower_ascii_src y _ hy (by omega), lower_ascii_src z _ hz (by omega)⟩⟩
     · simp only [c2, Bool.false_eq_true, if_false] at h
-      by_cases c3 : strcaseStartsWith p STR_LEGACY_FORWARD = true
+      by_cases c3 : hasPrefix (p.map ccharTolower) [91, 0xC2, 0xE0, 0xBF, 0xFD, 93] = true
       · simp only [c3, if_true, Option.some.injEq, Prod.mk.injEq] at h
-        obtain ⟨h6, hdet⟩ := match_legacy p c3
+        obtain ⟨x1, x2, x3, x4, x5, x6, r, rfl, h1, h2, h3, h4, h5, h6⟩ := match6 p _ _ _ _ _ _ c3
+        have e1 : x1 = 91 := by unfold ccharTolower at h1; split at h1 <;> omega
+        have e6 : x6 = 93 := by unfold ccharTolower at h6; split at h6 <;> omega
+        have e2 := lower_high_src x2 _ h2 (by omega)
+        have e3 := lower_high_src x3 _ h3 (by omega)
+        have e4 := lower_high_src x4 _ h4 (by omega)
+        have e5 := lower_high_src x5 _ h5 (by omega)
+        subst e1 e2 e3 e4 e5 e6
         rw [l3] at h
-        exact ⟨by omega, by omega, .inr ⟨by omega, hdet⟩⟩
+        exact ⟨by simp; omega, by omega, .inr ⟨r, by omega, rfl⟩⟩
       · simp [c3] at h
 
-/-! ### the loop: total, terminating, returns a suffix, keeps the DBCS boundary when no EF occurs -/
+/-! ### the loop: total, terminating, returns a suffix, always cuts at a character boundary -/
 
 theorem slice_drop (p : List Nat) (n : Nat) (h : n ≤ p.length) : slice p n p.length = .ok (p.drop n) := by
   unfold slice
@@ -352,7 +155,7 @@ theorem skipBlank_spec (p : List Nat) (h : p ≠ []) :
       exact slice_drop (32 :: r) 1 (by simp)
     · simp [hc, pure, Except.pure]
 
-/-- the scan state after consuming `pre` from a state that is not "inside a character". -/
+/-- the scan state after consuming `pre` from state `st`. -/
 def foldFrom (st : Nat) (pre : List Nat) : Nat := pre.foldl (fun st c => dbcsNextStatus c st) st
 
 theorem next_ascii (c st : Nat) (h : st ≠ DBCS_LEADING) (hc : c < 128) : dbcsNextStatus c st = DBCS_ASCII := by
@@ -363,37 +166,35 @@ theorem next_trail (c : Nat) : dbcsNextStatus c DBCS_LEADING = DBCS_TRAILING := 
 
 theorem subjectLoop_spec (fuel : Nat) (p : List Nat) (ty : Nat) (hf : fuel ≥ p.length + 1) :
     ∃ ty' pre r, subjectLoop fuel p ty = .ok (ty', r) ∧ p = pre ++ r ∧
-      (0xEF ∉ p → ∀ st, st ≠ DBCS_LEADING → foldFrom st pre ≠ DBCS_LEADING) := by
+      (∀ st, st ≠ DBCS_LEADING → foldFrom st pre ≠ DBCS_LEADING) := by
   obtain ⟨k0, k1, k2⟩ := dbcs_consts
   induction fuel generalizing p ty with
   | zero => omega
   | succ fuel ih =>
     rw [subjectLoop]
     by_cases hp : p.length = 0
-    · exact ⟨ty, [], p, by simp [hp, pure, Except.pure], by simp, fun _ st hst => by simpa [foldFrom] using hst⟩
-    · simp only [hp, if_false]
-      cases hs : subjectStep p with
-      | none => exact ⟨ty, [], p, by simp [pure, Except.pure], by simp, fun _ st hst => by simpa [foldFrom] using hst⟩
+    · exact ⟨ty, [], p, by simp [hp, pure, Except.pure], by simp, fun st hst => by simpa [foldFrom] using hst⟩
+    · simp only [hp, if_false, subjectStep_eq, bind, Except.bind]
+      cases hs : subjectStepP p with
+      | none => exact ⟨ty, [], p, by simp [pure, Except.pure], by simp, fun st hst => by simpa [foldFrom] using hst⟩
       | some nt =>
         obtain ⟨n, ty'⟩ := nt
-        obtain ⟨hn, hn3, hshape⟩ := subjectStep_spec p n ty' hs
-        simp only [slice_drop p n hn, bind, Except.bind]
+        obtain ⟨hn, hn3, hshape⟩ := subjectStepP_spec p n ty' hs
+        simp only [slice_drop p n hn]
         -- what was consumed by the prefix keeps the boundary
-        have hpre : 0xEF ∉ p → ∀ st, st ≠ DBCS_LEADING → foldFrom st (p.take n) ≠ DBCS_LEADING := by
-          intro hne st hst
-          rcases hshape with ⟨x, y, z, r, rfl, rfl, hx, hy, hz⟩ | ⟨rfl, hdet⟩
+        have hpre : ∀ st, st ≠ DBCS_LEADING → foldFrom st (p.take n) ≠ DBCS_LEADING := by
+          intro st hst
+          rcases hshape with ⟨x, y, z, r, rfl, rfl, hx, hy, hz⟩ | ⟨r, rfl, rfl⟩
           · simp only [List.take_succ_cons, List.take_zero, foldFrom, List.foldl_cons, List.foldl_nil]
             rw [next_ascii x st hst hx, next_ascii y _ (by omega) hy, next_ascii z _ (by omega) hz]; omega
-          · obtain ⟨h1, h2, h3, h4, r, rfl, g1, g2, g3, g4⟩ := hdet hne
-            simp only [List.take_succ_cons, List.take_zero, foldFrom, List.foldl_cons, List.foldl_nil]
-            rw [next_ascii 91 st hst (by omega), next_lead h1 _ (by omega) g1, next_trail,
-              next_lead h3 _ (by omega) g3, next_trail, next_ascii 93 _ (by omega) (by omega)]; omega
+          · simp only [List.take_succ_cons, List.take_zero, foldFrom, List.foldl_cons, List.foldl_nil]
+            rw [next_ascii 91 st hst (by omega), next_lead 0xC2 _ (by omega) (by omega), next_trail,
+              next_lead 0xBF _ (by omega) (by omega), next_trail, next_ascii 93 _ (by omega) (by omega)]; omega
         by_cases hd : (p.drop n).length = 0
         · refine ⟨ty', p.take n, p.drop n, by simp [hd, pure, Except.pure], by simp, hpre⟩
         · simp only [hd, if_false]
           have hne : p.drop n ≠ [] := by intro h; rw [h] at hd; simp at hd
           rw [skipBlank_spec _ hne]
-          -- the optional blank
           by_cases hb : (p.drop n).head? = some 32
           · simp only [hb, if_true]
             obtain ⟨ty'', pre, r, h1, h2, h3⟩ := ih (List.drop 1 (p.drop n)) ty'
@@ -405,23 +206,20 @@ theorem subjectLoop_spec (fuel : Nat) (p : List Nat) (ty : Nat) (hf : fuel ≥ p
               calc p = p.take n ++ p.drop n := by simp
                 _ = p.take n ++ (32 :: List.drop 1 (p.drop n)) := by rw [← e]
                 _ = p.take n ++ [32] ++ pre ++ r := by rw [h2]; simp
-            · intro hne' st hst
-              have hsuf : 0xEF ∉ List.drop 1 (p.drop n) := fun hm =>
-                hne' (List.mem_of_mem_drop (List.mem_of_mem_drop hm))
+            · intro st hst
               simp only [foldFrom, List.foldl_append, List.foldl_cons, List.foldl_nil]
-              have a1 := hpre hne' st hst
+              have a1 := hpre st hst
               simp only [foldFrom] at a1
               have a2 : dbcsNextStatus 32 (List.foldl (fun st c => dbcsNextStatus c st) st (p.take n)) ≠ DBCS_LEADING := by
                 rw [next_ascii 32 _ a1 (by omega)]; omega
-              exact h3 hsuf _ a2
+              exact h3 _ a2
           · simp only [hb, if_false]
             obtain ⟨ty'', pre, r, h1, h2, h3⟩ := ih (p.drop n) ty' (by simp only [List.length_drop]; omega)
             refine ⟨ty'', p.take n ++ pre, r, h1, ?_, ?_⟩
             · calc p = p.take n ++ p.drop n := by simp
                 _ = p.take n ++ pre ++ r := by rw [h2]; simp
-            · intro hne' st hst
-              have hsuf : 0xEF ∉ p.drop n := fun hm => hne' (List.mem_of_mem_drop hm)
+            · intro st hst
               simp only [foldFrom, List.foldl_append]
-              exact h3 hsuf _ (hpre hne' st hst)
+              exact h3 _ (hpre st hst)
 
 end PttVerif.C18
